@@ -74,6 +74,8 @@ mutual
     /-- `buf += callee(DATA, opt_sb, opt_ijData);` with DATA = the base, or `soy.$$augmentMap(base, {k: v, …})` when there
         are parameters -/
     | call (buf : Bytes) (callee : Bytes) (base : DataBase) (params : List (Bytes × JsExpr))
+    /-- `switch (e) { case n: … break; … default: … }` with integer labels (a `{plural}` without a message bundle) -/
+    | pluralS (e : JsExpr) (cases : JsPlural) (dflt : JsStmts)
   inductive JsStmts where
     | nil
     | cons (s : JsStmt) (rest : JsStmts)
@@ -87,6 +89,10 @@ mutual
     | nil
     | dflt (body : JsStmts)
     | cons (labels : List JsExpr) (body : JsStmts) (rest : JsCases)
+  /-- the `case n:` clauses of a plural switch, each closed by `break;` (the `default:` clause follows them) -/
+  inductive JsPlural where
+    | nil
+    | cons (v : Int) (body : JsStmts) (rest : JsPlural)
 end
 
 def JsStmts.append : JsStmts → JsStmts → JsStmts
@@ -226,6 +232,14 @@ mutual
       withVal (eval env init) fun v =>
         execLoopStep (execStmts body) i lim step idx fuel (setLocal (setLocal env i v) idx (.num 0))
     | .switchS e cases, env => withVal (eval env e) fun v => execCases cases v env
+    | .pluralS e cases dflt, env =>
+      withVal (eval env e) fun v =>
+        match v with
+        | .num i =>
+          (match execPlural cases i env with
+            | some r => r
+            | none => execStmts dflt env)
+        | _ => .unspec           -- a plural over a value that is no number: the default clause in JavaScript; outside the subset
     | .call buf callee base params, env =>
       withVal (evalBase env base) fun b =>
         match b, evalParams env params [] with
@@ -253,6 +267,12 @@ mutual
       | some (.inr false) => execCases rest v env
       | some (.inl .error) => .error
       | _ => .unspec
+  /-- §12.11: a number against integer labels under `===` -/
+  def execPlural : JsPlural → Int → JEnv → Option SRes
+    | .nil, _, _ => none                   -- no label matched: the default clause
+    | .cons v body rest, i, env =>
+      if SoyVerif.Spec.JsSem.exact v then (if i == v then some (execStmts body env) else execPlural rest i env)
+      else some .unspec
 end
 
 end
